@@ -11,20 +11,26 @@ open Cv
 
 namespace Cv.C17
 
-/-- frictionless, no reflecting boundary, not periodic, own time-step factor 1 -/
+/-- frictionless, no reflecting boundary, not periodic; **any** time-step factor of the variable -/
 structure Plain (p : ExtParams ℝ) : Prop where
   nolangevin : p.langevin = false
   nolo : p.reflLower = none
   noup : p.reflUpper = none
   noper : p.per = none
-  tsf1 : p.tsf = 1
+
+/-- the slow time step of a variable with time-step factor `n`: every term of the integrator uses it -/
+noncomputable def slowDt (p : ExtParams ℝ) : ℝ := p.dt * (p.tsf : ℝ)
+
+/-- the instantaneous bias force: biases hand over `n` times their force, the integrator divides it back -/
+noncomputable def instForce (p : ExtParams ℝ) (fb : ℝ) : ℝ := fb / (p.tsf : ℝ)
 
 /-- reported kinetic + coupling energy of a state, with the work of a constant bias force `fb` -/
 noncomputable def energyOf (x fb : ℝ) (s : ExtState ℝ) : ℝ := s.ek + s.ep - fb * (s.prevX - x)
 
 /-- the shadow correction: `h²k²/(8m)` times the squared displacement from the equilibrium point `x + fb/k` -/
 noncomputable def shadowOf (p : ExtParams ℝ) (x fb : ℝ) (s : ExtState ℝ) : ℝ :=
-  energyOf x fb s - (p.dt * p.dt * p.k * p.k / (8 * p.mass)) * (s.prevX - x - fb / p.k) ^ 2
+  energyOf x (instForce p fb) s -
+    (slowDt p * slowDt p * p.k * p.k / (8 * p.mass)) * (s.prevX - x - instForce p fb / p.k) ^ 2
 
 /-- iterate the integrator with a static variable value and a constant bias force -/
 noncomputable def iter (p : ExtParams ℝ) (x fb : ℝ) : Nat → ExtState ℝ → ExtState ℝ
@@ -37,10 +43,10 @@ theorem shadow_step (p : ExtParams ℝ) (hp : Plain p) (hm : p.mass ≠ 0) (hk :
     shadowOf p x fb (extIntegrate p (extIntegrate p s x fb 0 0) x fb 0 0) =
     shadowOf p x fb (extIntegrate p s x fb 0 0) := by
   obtain ⟨a1, _, a3, a4, a5, a6⟩ :=
-    extIntegrate_plain p hp.nolangevin hp.nolo hp.noup hp.noper hp.tsf1 s x fb 0 0
+    extIntegrate_plain p hp.nolangevin hp.nolo hp.noup hp.noper s x fb 0 0
   obtain ⟨b1, _, _, _, b5, b6⟩ :=
-    extIntegrate_plain p hp.nolangevin hp.nolo hp.noup hp.noper hp.tsf1 (extIntegrate p s x fb 0 0) x fb 0 0
-  unfold shadowOf energyOf
+    extIntegrate_plain p hp.nolangevin hp.nolo hp.noup hp.noper (extIntegrate p s x fb 0 0) x fb 0 0
+  unfold shadowOf energyOf slowDt instForce
   rw [b1, b5, b6, a1, a5, a6]
   exact shadow_algebra hm hk a3 (by rw [a3]; exact a4)
 
@@ -59,12 +65,13 @@ theorem shadow_invariant (p : ExtParams ℝ) (hp : Plain p) (hm : p.mass ≠ 0) 
 theorem energy_fluctuation (p : ExtParams ℝ) (hp : Plain p) (hm : p.mass ≠ 0) (hk : p.k ≠ 0) (s : ExtState ℝ) (x fb : ℝ) (n : Nat) :
     let a := iter p x fb (n + 1) s
     let b := iter p x fb 1 s
-    energyOf x fb a - energyOf x fb b =
-      (p.dt * p.dt * p.k * p.k / (8 * p.mass)) * ((a.prevX - x - fb / p.k) ^ 2 - (b.prevX - x - fb / p.k) ^ 2) := by
+    energyOf x (instForce p fb) a - energyOf x (instForce p fb) b =
+      (slowDt p * slowDt p * p.k * p.k / (8 * p.mass)) *
+        ((a.prevX - x - instForce p fb / p.k) ^ 2 - (b.prevX - x - instForce p fb / p.k) ^ 2) := by
   intro a b
   have h := shadow_invariant p hp hm hk s x fb n
   unfold shadowOf at h
-  show energyOf x fb (iter p x fb (n + 1) s) - energyOf x fb (iter p x fb 1 s) = _
+  show energyOf x (instForce p fb) (iter p x fb (n + 1) s) - energyOf x (instForce p fb) (iter p x fb 1 s) = _
   linear_combination h
 
 /-! ## routing of forces -/
@@ -197,9 +204,61 @@ theorem params (kB T tol tau : ℝ) (hkb : kB ≠ 0) (hT : T ≠ 0) (htol : tol 
   · norm_num
     field_simp
 
+/-! ## friction and noise (the [O] step), any time-step factor -/
+
+/-- with friction on and no reflecting boundary, the velocity left by one update is the documented [O] step applied to
+    the kicked velocity: damped by `exp(-γ·h)` with the **slow** time step `h = dt·n`, plus `σ·ξ/m` -/
+theorem langevin_step (p : ExtParams ℝ) (hl : p.langevin = true) (hlo : p.reflLower = none) (hup : p.reflUpper = none)
+    (hper : p.per = none) (s : ExtState ℝ) (x fb fa rnd : ℝ) :
+    (extIntegrate p s x fb fa rnd).vExt =
+      Real.exp (-(slowDt p * p.gamma)) *
+        (s.vExt + slowDt p * (instForce p fb - p.k * (s.xExt - x)) / p.mass) + p.sigma * rnd / p.mass ∧
+    (extIntegrate p s x fb fa rnd).xExt =
+      s.xExt + slowDt p / 2 * (s.vExt + slowDt p * (instForce p fb - p.k * (s.xExt - x)) / p.mass) +
+        slowDt p / 2 * (extIntegrate p s x fb fa rnd).vExt := by
+  unfold extIntegrate slowDt instForce
+  simp only [hl, hlo, hup, hper, dist2SGrad_none, Option.bind_none, prim_exp]
+  simp only [lit05, lit20, lit10, if_true]
+  constructor
+  · congr 1
+    congr 1
+    · congr 1; ring
+    · ring
+  · ring
+
+/-- fluctuation–dissipation for the slow step: the damping factor of `langevin_step` and the noise amplitude computed by
+    `init_extended_Lagrangian` (`extSigma`, with the same factor `n`) leave the Maxwell variance `kB·T/m` of the velocity
+    unchanged — `c²·(kB T/m) + (σ/m)² = kB T/m`.  A damping factor that forgets `n` (or a noise amplitude that does) breaks
+    this identity whenever `n ≠ 1`. -/
+theorem langevin_fluctuation_dissipation (gamma dt kB T mass : ℝ) (n : Int) (hm : 0 < mass) (hT : 0 ≤ kB * T)
+    (hg : 0 ≤ gamma * dt * (n : ℝ)) :
+    (Real.exp (-(dt * (n : ℝ) * gamma))) ^ 2 * (kB * T / mass) + (extSigma gamma dt kB T mass n / mass) ^ 2 = kB * T / mass := by
+  unfold extSigma
+  simp only [prim_sqrt, prim_exp, lit10, lit20]
+  have he : Real.exp (-(dt * (n : ℝ) * gamma)) ^ 2 = Real.exp (-2 * gamma * dt * (n : ℝ)) := by
+    rw [pow_two, ← Real.exp_add]; congr 1; ring
+  have hle : Real.exp (-2 * gamma * dt * (n : ℝ)) ≤ 1 := by
+    rw [Real.exp_le_one_iff]; nlinarith
+  have hnn : 0 ≤ (1 - Real.exp (-2 * gamma * dt * (n : ℝ))) * mass * kB * T := by
+    have h1 : 0 ≤ 1 - Real.exp (-2 * gamma * dt * (n : ℝ)) := by linarith
+    have h2 : 0 ≤ (1 - Real.exp (-2 * gamma * dt * (n : ℝ))) * mass := mul_nonneg h1 hm.le
+    calc (0 : ℝ) ≤ ((1 - Real.exp (-2 * gamma * dt * (n : ℝ))) * mass) * (kB * T) := mul_nonneg h2 hT
+      _ = (1 - Real.exp (-2 * gamma * dt * (n : ℝ))) * mass * kB * T := by ring
+  rw [he, div_pow, Real.sq_sqrt hnn]
+  field_simp
+  ring
+
+/-- the two coefficients of one model step, as the model computes them, satisfy it: premise check with `n = 3` -/
+example : (0 : ℝ) ≤ 0.001 * 0.5 * ((3 : Int) : ℝ) := by norm_num
+
 /-! ## non-vacuity -/
 
 example : ∃ p : ExtParams ℝ, Plain p ∧ p.mass ≠ 0 ∧ p.k ≠ 0 :=
-  ⟨{ k := 2, mass := 3, dt := 1, gamma := 0, sigma := 0, wrapC := 0, width := 1 }, ⟨rfl, rfl, rfl, rfl, rfl⟩, by norm_num, by norm_num⟩
+  ⟨{ k := 2, mass := 3, dt := 1, gamma := 0, sigma := 0, wrapC := 0, width := 1 }, ⟨rfl, rfl, rfl, rfl⟩, by norm_num, by norm_num⟩
+
+/-- the hypotheses are also met by a variable with a time-step factor other than 1 -/
+example : ∃ p : ExtParams ℝ, Plain p ∧ p.mass ≠ 0 ∧ p.k ≠ 0 ∧ p.tsf = 3 :=
+  ⟨{ k := 2, mass := 3, dt := 1, tsf := 3, gamma := 0, sigma := 0, wrapC := 0, width := 1 }, ⟨rfl, rfl, rfl, rfl⟩,
+   by norm_num, by norm_num, rfl⟩
 
 end Cv.C17
